@@ -7,7 +7,8 @@ input values, summed per currency with beancount's data model), never from the c
 E  tables   one amount-like column (Amount, Position or Inventory): every column of 0..3 (quick) / 0..4 (thorough)
             cells over the datatype's alphabet {NULL, one or two of three currencies, zero amounts, amounts with
             more / fewer digits than the display precision, multi-lot inventories, lots that cancel, the empty
-            inventory}, in three layouts: alone, between a plain int and a plain str column, before a plain int
+            inventory}, in five layouts: alone, between a plain int and a plain str column, before a plain int column,
+            after / before a plain column that SHARES ITS NAME (BQL allows duplicate names), before a plain int
             column; two (quick) / two and three (thorough) amount-like columns of every datatype combination with
             plain columns in between, 0..2 rows over reduced alphabets.  Each table without a formatter, with the default
             formatter of a second ledger whose most common and maximum digit counts differ, with that ledger's
@@ -47,6 +48,8 @@ ASSUMPTIONS = [
     'without a formatter cells are compared numerically (trailing zeros are not compared)',
     'the precision a formatter quantises to is the one it was BUILT with: build() = most common digits of the ledger (USD 2, HOOL 3, EUR 0), '
     'build(precision=Precision.MAXIMUM) = the most digits seen (second ledger: USD 4, HOOL 5, EUR 1 against 2 / 3 / 0 most common); currencies unknown to the formatter are outside',
+    'column names may repeat (SELECT a AS x, b AS x): the oracle is applied per column POSITION; two amount-like columns of one name are never placed '
+    'next to each other because their runs of "x (CUR)" columns could not be told apart',
     'plain columns must come back as the identical objects / equal values of the same type; the input description and rows are not checked for mutation',
 ]
 
@@ -98,16 +101,21 @@ def tables(seed, thorough):
                 yield [('x', t)], [(v,) for v in vals]
                 yield [('i', 'int'), ('x', t), ('s', 'str')], [(k, v, 's%d' % k) for k, v in enumerate(vals)]
                 yield [('x', t), ('i', 'int')], [(v, 10 - k) for k, v in enumerate(vals)]
+                # BQL allows duplicate column names: a plain column sharing its name with the amount-like one, before and after it
+                yield [('x', 'str'), ('x', t)], [('s%d' % k, v) for k, v in enumerate(vals)]
+                yield [('x', t), ('x', 'int')], [(v, 10 - k) for k, v in enumerate(vals)]
     for ncols in ((2, 3) if thorough else (2,)):
         for ts in itertools.product(AMOUNTLIKE, repeat=ncols):
             cells = list(itertools.product(*(reduced[t] for t in ts)))
-            names = ['x', 'y', 'z'][:ncols]
-            for n in (0, 1, 2):
-                for rws in itertools.product(cells, repeat=n):
-                    # plain columns between the amount-like ones; the str column holds NULLs as well
-                    cols = [(names[0], ts[0]), ('s', 'str')] + [c for k in range(1, ncols) for c in ((names[k], ts[k]),)] + [('i', 'int')]
-                    rows = [(r[0], None if k else 'a b') + tuple(r[1:]) + (k,) for k, r in enumerate(rws)]
-                    yield cols, rows
+            # distinct names, and two amount-like columns SHARING a name (never adjacent: the runs of "x (CUR)" columns of two
+            # adjacent columns of one name could not be told apart)
+            for names in (['x', 'y', 'z'][:ncols], ['x', 'x'] if ncols == 2 else ['x', 'y', 'x']):
+                for n in (0, 1, 2):
+                    for rws in itertools.product(cells, repeat=n):
+                        # plain columns between the amount-like ones; the str column holds NULLs as well
+                        cols = [(names[0], ts[0]), ('s', 'str')] + [c for k in range(1, ncols) for c in ((names[k], ts[k]),)] + [('i', 'int')]
+                        rows = [(r[0], None if k else 'a b') + tuple(r[1:]) + (k,) for k, r in enumerate(rws)]
+                        yield cols, rows
 
 
 # -- oracle ------------------------------------------------------------------------------------------
